@@ -91,7 +91,8 @@ func attributeType(args ...Object) Object {
 			return newError("invalid type %s", strObj.Value)
 		}
 
-		return nativeBoolToBooleanObject(path.Type() == ObjectType(strObj.Value))
+		// a missing attribute has no type, not even NULL
+		return nativeBoolToBooleanObject(!isUndefined(path) && path.Type() == ObjectType(strObj.Value))
 	}
 
 	return newError("invalid type %s", typ.Type())
